@@ -25,6 +25,9 @@ THEOREMS = [
     "insert_int_lossless_or_fails", "insert_lossless_unsound", "insert_decimal_truncates",
     "not_null_enforced", "no_silent_replacement", "castRow_respects", "not_null_regression",
     "insert_agrees_with_spec_partial", "castCol_ok", "castI_null_inv",
+    # CREATE TABLE column options
+    "optFold_nullable", "declared_not_null_catalogued", "primary_key_catalogued_not_null",
+    "catalogued_nullable_iff",
 ]
 
 # type-changing rewrite rules: the optimised plan (and the result) has another column type than
@@ -66,13 +69,34 @@ def has_sub_cancel(q, op=" - "):
 TYNAME = {"BOOLEAN": "b", "SMALLINT": "i16", "INT": "i32", "BIGINT": "i64", "STRING": "s"}
 
 
+DECL_RE = r"\((\w+) (\w+|\(opts[^)]*\))\)"
+
+
+def declared_not_null(n):
+    """What the SQL text declares (model free): PRIMARY KEY anywhere, or the LAST of NULL / NOT NULL
+    is NOT NULL."""
+    if not n.startswith("("):
+        return n != "null"
+    opts = n[1:-1].split()[1:]
+    if "pk" in opts:
+        return True
+    last = [o for o in opts if o in ("null", "notnull")]
+    return bool(last) and last[-1] == "notnull"
+
+
 def parse_ins(req):
     m = re.match(r"\(selcast (\w+) \(src .*?\) (\w+) \(rows (.*)\)\)$", req)
     if m:
         return m.group(1), [(m.group(2), "null")]
     m = re.match(r"\(ins\w* (\w+) (?:\(src .*?\) )?\(decls (.*?)\) (?:\(cols [^)]*\) )?\(rows (.*)\)\)$", req)
+    if m and "(opts" in req:
+        # option lists contain parentheses: take the decls text up to "(rows" / "(cols"
+        head = req[req.index("(decls ") + 7:]
+        cut = head.index(") (cols") if ") (cols" in head else head.index(") (rows")
+        m = re.match(r"\(ins\w* (\w+) ", req)
+        return m.group(1), [(t, "notnull" if declared_not_null(n) else "null") for t, n in re.findall(DECL_RE, head[:cut + 1])]
     eng, decls, rows = m.group(1), m.group(2), m.group(3)
-    decls = re.findall(r"\((\w+) (\w+)\)", decls)
+    decls = [(t, "notnull" if declared_not_null(n) else "null") for t, n in re.findall(DECL_RE, decls)]
     return eng, decls
 
 
@@ -93,15 +117,17 @@ def render_sql(req):
         return rest
     def cols(txt):
         out = []
-        for k, (t, n) in enumerate(re.findall(r"\((\w+) (\w+)\)", txt)):
-            out.append("c%d %s%s" % (k, SQLTY[t], {"notnull": " not null", "pk": " primary key"}.get(n, "")))
+        words = {"null": " null", "notnull": " not null", "unique": " unique", "pk": " primary key"}
+        for k, (t, n) in enumerate(re.findall(DECL_RE, txt)):
+            opt = "".join(words[o] for o in n[1:-1].split()[1:]) if n.startswith("(") else ("" if n == "null" else words[n])
+            out.append("c%d %s%s" % (k, SQLTY[t], opt))
         return ", ".join(out)
     try:
         kind = req.split(" ")[0][1:]
         rows = [r.split(" ") if r else [] for r in re.findall(r"\(([^()]*)\)", req[req.index("(rows ") + 6:])]
         stmts = []
         src = re.search(r"\(src (.*?)\) (?:\(decls|\w+ \(rows)", req)
-        decls = re.search(r"\(decls (.*?)\) \((?:rows|cols)", req)
+        decls = re.search(r"\(decls (.*?)\) \((?:cols)", req) or re.search(r"\(decls (.*)\) \(rows", req)
         if decls:
             stmts.append("create table t(%s)" % cols(decls.group(1)))
         target = "t"
@@ -193,14 +219,16 @@ def run(ck):
         if i.startswith("harness-error") or m == "bad-request":
             ck.report("machinery:answer", "%s / %s on %s" % (i[:200], m[:200], q[:200]), replay={"request": q}, found_input=False)
             continue
-        if kind in ("type", "ptype"):
+        if kind in ("type", "ptype", "ddl"):
             st["model_vs_impl"]["compared"] += 1
             outcomes[kind + ":" + i.split(" ")[0]] += 1
             if i != m:
                 st["model_vs_impl"]["disagree"] += 1
                 # the property (returned columns carry the derived type) is not decided by a static
                 # type alone: the SQL oracle below is the search for a failing input
-                ck.report("corr:%s" % kind, "typeOf and TypeSchemaAnalysis disagree on %s: impl=%s model=%s" % (q[:200], i, m),
+                what = ("what CREATE TABLE catalogues (bind_create_table) and the model's catalogOf disagree"
+                        if kind == "ddl" else "typeOf and TypeSchemaAnalysis disagree")
+                ck.report("corr:%s" % kind, "%s on %s: impl=%s model=%s" % (what, q[:200], i, m),
                           replay={"request": q, "impl": i, "model": m, "stream": "model_vs_impl"}, found_input=False)
             continue
         # ins
